@@ -1606,10 +1606,18 @@ dt_dtadd(struct dt_dt_s d, struct dt_dtdur_s dur)
 		case DT_DURBD:
 			/* no months, years or weekdays in a count of seconds,
 			 * go through ymd */
+		via_ymd:
 			d = dt_dtconv((dt_dttyp_t)DT_YMD, d);
 			d = dt_dtadd(d, dur);
 			return dt_dtconv((dt_dttyp_t)DT_SEXY, dt_fixup(d));
 		default:
+#if defined WITH_LEAP_SECONDS
+			if (UNLIKELY(dur.tai)) {
+				/* real seconds, the epoch count itself
+				 * doesn't know about inserted ones */
+				goto via_ymd;
+			}
+#endif	/* WITH_LEAP_SECONDS */
 			break;
 		}
 		d.sexy = __sexy_add(d.sexy, dur);
